@@ -29,8 +29,9 @@ import (
 //verif:stub (*go.uber.org/nilaway/assertion/function/assertiontree.RootAssertionNode).AddProduction = c02AddProduction
 
 var ndHarnesses = map[string]func(){
-	"Harness_C02":    Harness_C02,
-	"Harness_C19_K2": Harness_C19_K2,
+	"Harness_C02":        Harness_C02,
+	"Harness_C19_K2":     Harness_C19_K2,
+	"Harness_C02_Switch": Harness_C02_Switch,
 }
 
 type c02Prod struct {
